@@ -23,5 +23,25 @@ def _nontrivial(c):
     return s["withs"] >= 1 and s["tasks"] >= 2 and s["items"] >= 1
 
 
+# contexts entered and left by explicit __enter__/__exit__ calls whose lifetimes overlap without nesting (a helper
+# that holds one open while another block is entered and left), then a suspension for a flush
+_OVERLAP = {
+    "roots": [[{"op": "yield", "x": "x0", "s": {"tuple": [
+        {"new": {"task": [
+            {"op": "enter", "v": "m1", "c": {"async": [1, None]}},
+            {"op": "enter", "v": "m2", "c": {"async": [2, None]}},
+            {"op": "yield", "x": "a1", "s": {"new": {"item": [0, 1, {"set": 1}]}}},
+            {"op": "exit", "v": "m1", "c": {"async": [1, None]}},
+            {"op": "yield", "x": "a2", "s": {"new": {"item": [1, 2, {"set": 2}]}}},
+            {"op": "exit", "v": "m2", "c": {"async": [2, None]}},
+            {"op": "yield", "x": "a3", "s": {"new": {"item": [0, 3, {"set": 3}]}}},
+            {"op": "return", "e": {"var": "a3"}}]}},
+        {"new": {"task": [{"op": "yield", "x": "b1", "s": {"new": {"item": [1, 4, {"set": 4}]}}}, {"op": "return", "e": {"var": "b1"}}]}}]}},
+        {"op": "return", "e": {"var": "x0"}}]],
+    "params": {"kinds": {}},
+}
+_EXTRA = [(1, dict(name="overlap", p_ctx_fault=0, p_nonasync=0.0, p_manual_ctx=0.35, p_with=0.15, p_item=0.6, budget=18, max_depth=4))]
+
 mach.install(globals(), "C06", ("EvResume", "EvPause", "EvStep", "EvBefore"), ("C06:",), PROFILES, n_quick=300,
-             n_thorough=25000, nontrivial=_nontrivial, level="proof")
+             n_thorough=25000, nontrivial=_nontrivial, level="proof", corpus=[_OVERLAP],
+             extra_gen=mach.extra_profiles(_EXTRA, 45, 3000))
